@@ -229,6 +229,19 @@ def gen_project(rnd, idx, forced=None):
             pl = placement if r == 0 else rnd.choice(PLACEMENTS)
             rc = receiver if r == 0 else rnd.choice(RECEIVERS)
             fns.setdefault(f, []).append(emit_fn("emit_%d_%d" % (idx, k), pl, rc, method, name, form))
+    if idx % 3 == 1:
+        # emissions whose event name is not a string literal (a constant, a variable, a formatted string): no listener can be
+        # generated for them — in particular not one named after the target label of emit_to, which IS a literal
+        decoys = ("pub const PROGRESS_EVENT: &str = \"progress-by-constant\";\n"
+                  "pub fn emit_by_constant_%d(app: AppHandle, x: Foo, label: &str, name: String) {\n"
+                  "    app.emit(PROGRESS_EVENT, x.clone()).unwrap();\n"
+                  "    app.emit_to(\"main\", PROGRESS_EVENT, x.clone()).unwrap();\n"
+                  "    app.emit_to(\"settings-window\", &name, 1).unwrap();\n"
+                  "    app.emit_to(label, name.as_str(), x.clone()).unwrap();\n"
+                  "    app.emit(&format!(\"job-{}\", 7), 2).unwrap();\n"
+                  "    app.emit_to(EventTarget::labeled(\"side-panel\"), PROGRESS_EVENT, x).unwrap();\n"
+                  "}\n\n") % idx
+        fns.setdefault("f0.rs", []).append(decoys)
     files = []
     for f, lst in fns.items():
         files.append((f, HDR + (DEFS + HOLDER if f == "f0.rs" else "use super::*;\n") + "".join(lst)))
